@@ -521,6 +521,25 @@ def one_family(ctx, sut, fpm, idx):
     chain = [gen.klass(1)]
     for _ in range(rng.randint(1, 3)):
         chain.append(gen.klass(1, base=chain[-1]["id"]))
+        inherited = {name: prop for node in chain[:-1] for name, prop in node["props"].items()}
+        if inherited and rng.random() < 0.5:
+            # the new class re-declares a property it inherits (another element, another default): classes
+            # further down must see THIS declaration, not the one of a more distant ancestor
+            numeric = [n for n in sorted(inherited) if inherited[n]["el"].get("t") in ("Integer", "Number")]
+            if numeric and rng.random() < 0.7:
+                # ... the other numeric kind with the same keywords: an int member then has to come back as
+                # float under the one and stay int under the other
+                name = rng.choice(numeric)
+                redeclared = copy.deepcopy(inherited[name])
+                redeclared["el"]["t"] = "Number" if redeclared["el"]["t"] == "Integer" else "Integer"
+                redeclared["el"].pop("id", None)
+                redeclared["required"] = True
+            else:
+                name = rng.choice(sorted(inherited))
+                redeclared = gen.prop(1, name)
+            redeclared["source"] = inherited[name].get("source")
+            chain[-1]["props"][name] = redeclared
+            ctx.count("family.property_redeclared")
     index = {}
     for node in chain:
         gen_dsl.index_specs(node, index)
